@@ -32,6 +32,7 @@ ALLOWED_AXIOMS = set()  # every property theorem is expected to be closed under 
 TRUSTED_BASE = [
     "Coq 8.16.1 kernel and its vm_compute evaluator (no native_compute)",
     "translators: harness gen (reflection on the jwt types, regexp/syntax) and tools/globalsgen (go/ssa, x/tools v0.29.0) where the property uses generated tables",
+    "source translator tools/globalsgen/srcgen.go (go/ast + go/types -> Gallina over Base/GoSem.v) for the *_source theorems: its reading of Go (strings as byte strings, int as Z, slices as lists of visible elements, maps as association lists, range loops as a fold with continue/break/return, an error as option) is trusted; run-time panics, slice aliasing and integer overflow are not modelled by it",
     "correspondence harness (Go): generators, fact computation with crypto/ed25519 and the standard library, canonicalisation, diff",
     "hand-written Gallina model of the jwt decision logic, tied to the code only on the explored cases",
     "Go toolchain, encoding/json, base64, nkeys, Ed25519 (modelled, not verified)",
